@@ -273,6 +273,7 @@ Proof.
   destruct (existsb (fun p => tid_eqb (p_id p) t) (pool s)) eqn:Ep; [discriminate|].
   destruct (negb (subset_keys sat0 (expected_sat0 s i))) eqn:Es; [discriminate|].
   destruct (negb (Bool.eqb held (hold_expected s t))); [discriminate|].
+  destruct (Z.ltb (fst t) (c_start c)); [discriminate|].
   injection H as <-. apply negb_false_iff in Eb, Es.
   assert (Hs1 : exists s1, (if held then add_hold s t else s) = s1 /\ Inv c s1 /\ pool s1 = pool s /\
                 limbo s1 = limbo s /\ done s1 = done s /\ abs_done s1 = abs_done s /\ subs s1 = subs s).
